@@ -303,6 +303,11 @@ def F65():
     return ("log.income" not in Formula("x ~ I(`log.income` * 2)").required_variables
             or "log.income" in list(model_matrix("log(`log.income`) ~ .", d, context={}).rhs.columns))
 
+def F66():
+    from formulaic.transforms import scale
+    r = scale(np.array([1.0, 2.0, 4.0, 7.0]) * 1e200)
+    return not (np.isfinite(r).all() and abs(r.std(ddof=1) - 1) < 1e-9)
+
 ids = sys.argv[1:] or [f"F{i}" for i in range(1, 26)]
 for i in ids:
     try:
